@@ -163,7 +163,7 @@ func verifSub(s syntaxSubscript) string {
 func verifChain(n syntaxNode, depth int) string {
 	var parts []string
 	for n != nil && !reflect.ValueOf(n).IsNil() {
-		if depth > 64 {
+		if depth > 1024 {
 			parts = append(parts, `(cycle)`)
 			break
 		}
@@ -234,7 +234,7 @@ func verifNode(n syntaxNode, depth int) string {
 }
 
 func verifQuery(q syntaxQuery, depth int) string {
-	if depth > 64 {
+	if depth > 1024 {
 		return `(cycle)`
 	}
 	depth++
